@@ -62,6 +62,9 @@ package index
 
 //@ func (recordSet).Less
 //@   requires in_range [C09]: 0 <= i && i < len(r) && 0 <= j && j < len(r)
+//@   let cmp := call[bytes.Compare#0]
+//@   call[bytes.Compare#0] assert compares_the_two_digests [C11]: ref(arg0) == ref(r[i].digest) && ref(arg1) == ref(r[j].digest)
+//@   ensures ascending_by_digest [C11]: result == (cmp < 0)
 
 //@ func (recordSet).Swap
 //@   requires in_range [C09]: 0 <= i && i < len(r) && 0 <= j && j < len(r)
@@ -131,6 +134,13 @@ package index
 //@   loop[1] invariant count [C11]: wn(w) - old(wn(w)) < 4611686018427387904 ==> l == wn(w) - old(wn(w))
 //@   loop[1] invariant mono [C11]: wn(w) >= old(wn(w))
 //@   loop[1] step continues_only_after_success [C16]: berr == nil
+//@   call[append#0] assert collects_the_widths [C11]: ref(arg0) == ref(widths) && len(arg1) == 1 && arg1[0] == width
+//@   call[maplookup#0] assert bucket_of_next_sorted_width [C11]: key == widths[rangeindex]
+//@   call[singleWidthIndex.Marshal#0] assert into_the_same_writer [C11]: ref(arg1) == ref(w)
+//@   closure[0]
+//@     assume sort_slice_indices: 0 <= i && i < len(widths) && 0 <= j && j < len(widths)
+//@     ensures ascending_by_width [C11]: result == (widths[i] < widths[j])
+//@   end
 
 //@ func (*multiWidthCodedIndex).Marshal
 //@   modifies wn(w)
@@ -146,6 +156,15 @@ package index
 //@   loop[0] invariant count [C11]: wn(w) - old(wn(w)) < 4611686018427387904 ==> l == wn(w) - old(wn(w))
 //@   loop[0] invariant mono [C11]: wn(w) >= old(wn(w))
 //@   loop[0] step continues_only_after_success [C16]: berr == nil
+//@   call[MultihashIndexSorted.sortedMultihashCodes#0] assert own_codes [C11]: ref(arg0) == ref(m)
+//@   call[maplookup#0] assert bucket_of_next_sorted_code [C11]: key == codes[rangeindex]
+
+//@ func (*MultihashIndexSorted).sortedMultihashCodes
+//@   call[append#0] assert collects_the_codes [C11]: ref(arg0) == ref(codes) && len(arg1) == 1 && arg1[0] == code
+//@   closure[0]
+//@     assume sort_slice_indices: 0 <= i && i < len(codes) && 0 <= j && j < len(codes)
+//@     ensures ascending_by_code [C11]: result == (codes[i] < codes[j])
+//@   end
 
 //@ func (*InsertionIndex).Flatten
 //@   call[Index.Load#0] assert all_records_at_once [C05,C11]: ref(arg1) == ref(rcrds) && len(rcrds) == nrecords
